@@ -36,6 +36,13 @@ type Proxy struct {
 	answer    map[string]string // method -> result JSON the proxy answers itself (the request is not forwarded)
 	// LastMonitorID is the JSON of the monitor id of the last monitor* request that went through
 	LastMonitorID json.RawMessage
+
+	// since mode: the proxy makes the server behind it one that remembers transaction ids (see since.go)
+	since      bool
+	sinceMons  map[string]*sinceMon // monitor id (JSON text) -> what the client holds
+	sinceReqs  map[string]sinceReq  // request id (JSON text) -> the monitor_cond_since request
+	sinceN     int
+	SinceFound int // replies answered with found = true
 }
 
 type pair struct {
@@ -132,6 +139,10 @@ func (p *Proxy) pump(pr *pair, from, to net.Conn, dir string) {
 				}
 			}
 		}
+		var follow []byte
+		if p.sinceOn() {
+			raw, follow = p.sinceRewrite(dir, raw)
+		}
 		if fire != nil && fire.Inside {
 			_, _ = to.Write(raw[:len(raw)/2])
 			pr.close()
@@ -143,6 +154,11 @@ func (p *Proxy) pump(pr *pair, from, to net.Conn, dir string) {
 		}
 		_, werr := to.Write(append(raw, '\n'))
 		if dir == "s2c" {
+			pr.cw.Unlock()
+		}
+		if werr == nil && follow != nil && fire == nil {
+			pr.cw.Lock()
+			_, werr = to.Write(append(follow, '\n'))
 			pr.cw.Unlock()
 		}
 		if werr != nil {
